@@ -12,7 +12,7 @@
 (***************************************************************************)
 EXTENDS Naturals, Integers, Sequences, FiniteSets, FiniteSetsExt, TLC, TLCExt
 
-QMAX == 10                       \* C16: at most ten unexpired messages held
+CONSTANT QMAX                    \* C16: at most ten unexpired messages held (10; scaled in SocketImpl)
 CLIENT == 176                    \* 0xB0
 CONSOLE == 128                   \* 0x80
 CONSOLE_EXT == 144               \* 0x90
@@ -23,7 +23,7 @@ EXT_TYPE == 31                   \* 0x1F
 \* operator prints its fields in construction order, a JSON-deserialised one in sorted order).
 Same(a, b) == TLCFP(a) = TLCFP(b)
 
-S0 == [now |-> 0, n |-> 0, open |-> "no",
+S0 == [now |-> 0, n |-> 0, want |-> FALSE, cl |-> 0,
        acc |-> <<>>,             \* submitted messages in call order
        conn |-> <<>>,            \* per attempt c (index c+1): pending/up/half/cclosed/lost/refused/cancelled
        rx |-> <<>>,              \* per attempt: [pend |-> intact frames fed, not yet delivered; defect |-> BOOLEAN]
@@ -31,11 +31,13 @@ S0 == [now |-> 0, n |-> 0, open |-> "no",
        late |-> <<>>,            \* frames fed on a connection that ended before they were delivered
        blocked |-> 0,            \* blocking subscribers installed and not released
        bp |-> FALSE,             \* an unencodable message may sit in the queue
-       healFrom |-> 0, viol |-> <<>>]
+       healFrom |-> 0, strict |-> FALSE, viol |-> <<>>]
 
+\* s.n is the position of the event being judged (set by the trace specs; constant 0 in SocketImpl)
 V(s, clause) == [s EXCEPT !.viol = IF Len(@) < 8 THEN Append(@, <<clause, s.n>>) ELSE @]
 
 Idx(s) == 1..Len(s.acc)
+Op(s) == IF s.cl > 0 THEN "closing" ELSE IF s.want THEN "yes" ELSE "no"
 Counted(e)   == e.st \in {"ok", "calling"}
 Alive(s, e)  == Counted(e) /\ e.enc = "ok" /\ ~e.stale /\ s.now < e.expiry
 NeedsTx(e)   == e.att = 0 \/ (e.failed /\ e.att < 1 + e.retries)
@@ -51,24 +53,31 @@ UpConns(s)   == {c \in Conns(s) : s.conn[c] = "up"}
 \* every event).  C16 fixes the outcome only when the whole interval agrees.
 DefHeld(s)  == Cardinality({i \in HeldIdx(s) : s.acc[i].st = "ok"})
 Calling(s)  == {i \in Idx(s) : s.acc[i].st = "calling"}
+\* messages accepted before an earlier close(): the statements do not say whether they are kept
+\* (they may still occupy the buffer, and may or may not be transmitted after a re-open)
+StaleHeld(s) == Cardinality({i \in Idx(s) : LET e == s.acc[i] IN
+                               e.st = "ok" /\ e.stale /\ e.enc = "ok" /\ s.now < e.expiry /\ NeedsTx(e)})
 
 Track(s) ==
   IF Calling(s) = {} THEN s
   ELSE LET d  == DefHeld(s)
            nc == Cardinality(Calling(s))
+           sh == StaleHeld(s)
        IN [s EXCEPT !.acc = [i \in Idx(s) |->
              IF s.acc[i].st # "calling" THEN s.acc[i]
              ELSE [s.acc[i] EXCEPT !.lo = IF s.bp THEN 0 ELSE IF d < @ THEN d ELSE @,
-                                   !.hi = IF s.bp THEN 99 ELSE IF d + nc - 1 > @ THEN d + nc - 1 ELSE @,
-                                   !.oy = @ \/ s.open \in {"yes", "closing"},
-                                   !.on = @ \/ s.open \in {"no", "closing"}]]]
+                                   !.hi = IF s.bp THEN 99 ELSE IF d + sh + nc - 1 > @ THEN d + sh + nc - 1 ELSE @,
+                                   !.oy = @ \/ Op(s) \in {"yes", "closing", "reopening"},
+                                   !.on = @ \/ Op(s) \in {"no", "closing", "reopening"}]]]
 
 -----------------------------------------------------------------------------
 (* public calls *)
 
-CallOpen(s)  == [s EXCEPT !.open = "yes"]
-CallClose(s) == [s EXCEPT !.open = IF @ = "yes" THEN "closing" ELSE @]
-RetClose(s)  == [s EXCEPT !.open = "no",
+\* Whether the client is open: decided by the LAST open_socket()/close() call, but while any
+\* close() has been called and has not returned the statements fix nothing ("closing").
+CallOpen(s)  == [s EXCEPT !.want = TRUE]
+CallClose(s) == [s EXCEPT !.want = FALSE, !.cl = @ + 1]
+RetClose(s)  == [s EXCEPT !.cl = IF @ > 0 THEN @ - 1 ELSE 0,
                           !.acc = [i \in Idx(s) |-> [s.acc[i] EXCEPT !.stale = TRUE]]]
 
 CallSend(s, ev) ==
@@ -104,7 +113,7 @@ RetSend(s, ev) ==
 (* connections *)
 
 Attempt(s, ev) ==
-  LET s1 == IF s.open = "no" THEN V(s, "AttemptAfterClose") ELSE s
+  LET s1 == IF Op(s) = "no" THEN V(s, "AttemptAfterClose") ELSE s
   IN [s1 EXCEPT !.conn = Append(@, "pending"),
                 !.rx = Append(@, [pend |-> <<>>, defect |-> FALSE]),
                 !.ftx = Append(@, FALSE)]
@@ -126,7 +135,7 @@ TxFrame(s, ev) ==
       elig  == {i \in cand : s.acc[i].att = 0 \/ s.acc[i].failed}
       retry == {i \in elig : s.acc[i].failed}
       i     == IF retry # {} THEN Min(retry) ELSE IF elig # {} THEN Min(elig) ELSE 0
-      s1    == IF s.open = "no" /\ ev.nw > 0 THEN V(s, "WriteAfterClose") ELSE s
+      s1    == IF Op(s) = "no" /\ ev.nw > 0 THEN V(s, "WriteAfterClose") ELSE s
       s2    == IF ev.ok /\ (ev.from # CLIENT \/ ev.to # (IF ev.type = EXT_TYPE THEN CONSOLE_EXT ELSE CONSOLE))
                THEN V(s1, "Addressing") ELSE s1
   IN IF ~ev.ok THEN V(s2, "GarbledFrame")
@@ -151,7 +160,7 @@ TxFrame(s, ev) ==
 RxFrame(s, ev) ==
   LET c == ev.c + 1
   IN IF s.conn[c] # "up" \/ s.rx[c].defect THEN s
-     ELSE [s EXCEPT !.rx[c].pend = Append(@, [rd |-> ev.rd, soft |-> ev.soft])]
+     ELSE [s EXCEPT !.rx[c].pend = Append(@, [alts |-> ev.alts, soft |-> ev.soft])]
 
 RxDefect(s, ev) ==
   LET c == ev.c + 1
@@ -165,8 +174,8 @@ Deliver(s, ev) ==
      THEN LET c == Min(cs)
               h == Head(s.rx[c].pend)
               s1 == [s EXCEPT !.rx[c].pend = Tail(@)]
-          IN IF h.soft \/ Same(h.rd, ev.rd) THEN s1 ELSE V(s1, "Misread")
-     ELSE LET ks == {k \in 1..Len(s.late) : s.late[k].soft \/ Same(s.late[k].rd, ev.rd)}
+          IN IF h.soft \/ (\E a \in 1..Len(h.alts) : Same(h.alts[a], ev.rd)) THEN s1 ELSE V(s1, "Misread")
+     ELSE LET ks == {k \in 1..Len(s.late) : s.late[k].soft \/ (\E a \in 1..Len(s.late[k].alts) : Same(s.late[k].alts[a], ev.rd))}
           IN IF ks # {} THEN [s EXCEPT !.late = DropAt(@, Min(ks))]
              ELSE IF \E c \in Conns(s) : s.rx[c].defect THEN V(s, "DeliveredAfterDefect")
              ELSE V(s, "DeliverWithoutFrame")
@@ -177,7 +186,7 @@ Deliver(s, ev) ==
 Quiesce(s) ==
   LET up == UpConns(s)
       q  == s.blocked = 0
-      s1 == IF q /\ s.open = "yes" /\ up # {} /\ HeldIdx(s) # {}
+      s1 == IF q /\ Op(s) = "yes" /\ up # {} /\ HeldIdx(s) # {}
             THEN V(s, IF \E i \in HeldIdx(s) : s.acc[i].failed THEN "FailedNotResent"
                       ELSE "PromptAtQuiesce")
             ELSE s
@@ -185,12 +194,12 @@ Quiesce(s) ==
       s3 == IF q /\ \E c \in OpenConns(s) : s.rx[c].defect /\ s.rx[c].pend = <<>>
             THEN V(s2, "DefectNotClosed") ELSE s2
       s4 == IF q /\ \E c \in Conns(s) : s.conn[c] = "half" THEN V(s3, "HalfOpenNotClosed") ELSE s3
-  IN [s4 EXCEPT !.bp = IF up # {} /\ s.open = "yes" /\ q THEN FALSE ELSE @]
+  IN [s4 EXCEPT !.bp = IF up # {} /\ Op(s) = "yes" /\ q THEN FALSE ELSE @]
 
 HealBegin(s) == [s EXCEPT !.healFrom = Len(s.acc)]
 
 HealEnd(s) ==
-  LET s1 == IF s.open = "yes" /\ Cardinality(UpConns(s)) # 1 THEN V(s, "HealNotConnected") ELSE s
+  LET s1 == IF Op(s) = "yes" /\ Cardinality(UpConns(s)) # 1 THEN V(s, "HealNotConnected") ELSE s
       s2 == IF \E i \in Idx(s) : i > s.healFrom /\ s.acc[i].st = "ok" /\ s.acc[i].enc = "ok"
                                   /\ s.acc[i].tx = 0
             THEN V(s1, "HealNotTransmitting") ELSE s1
@@ -200,16 +209,16 @@ HealEnd(s) ==
   IN s4
 
 Residual(s, ev) ==
-  IF s.open # "no" THEN s
+  IF Op(s) # "no" THEN s
   ELSE LET s1 == IF ev.tasks > 0 \/ ev.timers > 0 THEN V(s, "ResidualTasks") ELSE s
        IN IF OpenConns(s) # {} \/ \E c \in Conns(s) : s.conn[c] = "pending"
           THEN V(s1, "ConnLeftOpen") ELSE s1
 
-Notify(s, ev) == IF ev.connected /\ s.open = "no" THEN V(s, "NotifyAfterClose") ELSE s
+Notify(s, ev) == IF ev.connected /\ Op(s) = "no" THEN V(s, "NotifyAfterClose") ELSE s
 
 -----------------------------------------------------------------------------
 Step1(s0, ev) ==
-  LET s == [s0 EXCEPT !.now = ev.t, !.n = @ + 1]
+  LET s == [s0 EXCEPT !.now = ev.t]
       k == ev.e
   IN CASE k = "callsend"  -> CallSend(s, ev)
        [] k = "retsend"   -> RetSend(s, ev)
@@ -220,7 +229,10 @@ Step1(s0, ev) ==
        [] k = "connok"    -> ConnOk(s, ev)
        [] k = "refused"   -> [s EXCEPT !.conn[ev.c + 1] = "refused"]
        [] k = "cancelled" -> [s EXCEPT !.conn[ev.c + 1] = "cancelled"]
-       [] k = "cclose"    -> EndConn(s, ev.c + 1, "cclosed")
+       [] k = "cclose"    -> EndConn(IF s.strict /\ Op(s) = "yes" THEN V(s, "SpuriousReset") ELSE s,
+                                     ev.c + 1, "cclosed")
+       [] k = "strict"    -> [s EXCEPT !.strict = TRUE]     \* the script injects no fault from here on
+       [] k = "lenient"   -> [s EXCEPT !.strict = FALSE]
        [] k = "lost"      -> EndConn(s, ev.c + 1, "lost")
        [] k = "peereof"   -> [s EXCEPT !.conn[ev.c + 1] = IF @ = "up" THEN "half" ELSE @]
        [] k = "txframe"   -> TxFrame(s, ev)
